@@ -106,7 +106,9 @@ def shrink_program(line, fails):
     changed = True
     setup, threads = list(prog["setup"]), [list(t) for t in prog["threads"]]
     rounds = 0
-    while changed and rounds < 40:
+    import time
+    deadline = time.time() + 150        # shrinking is a courtesy: never let it dominate the run
+    while changed and rounds < 40 and time.time() < deadline:
         changed = False
         rounds += 1
         for ti in range(len(threads)):
@@ -124,6 +126,8 @@ def shrink_program(line, fails):
         if changed:
             continue
         for si in range(len(setup)):
+            if time.time() > deadline:
+                break
             cand_s = setup[:si] + setup[si + 1:]
             cand = build(cand_s, threads)
             if cand:
